@@ -28,6 +28,10 @@ def main():
         rc0, out0 = sh(["/venv/bin/python", os.path.join(src, "demo.py")], env=env, cwd=d, timeout=600)
         meta["demo_on_unchanged"] = rc0
         rc, out = sh(["git", "-C", wt, "apply", os.path.abspath(os.path.join(src, "patch.diff"))])
+        if rc != 0:
+            # the seed was written against an earlier HEAD (before a later fix: commit): apply with fuzz
+            rc, out = sh(f"patch -p1 -F3 --no-backup-if-mismatch < {os.path.abspath(os.path.join(src, 'patch.diff'))}", cwd=wt)
+            meta["applied_with_fuzz"] = rc == 0
         meta["patch_applies"] = rc == 0
         if rc != 0:
             print("patch does not apply:", out)
